@@ -735,11 +735,21 @@ class EventBus:
                     self._on_idle.clear()  # Start in a busy state unless we confirm queue is empty by running step() at least once
 
                 # Create and start the run loop task
-                self._runloop_task = loop.create_task(self._run_loop(), name=f'{self}._run_loop')
+                # the run loop must not inherit handler state (e.g. "I hold the global lock") from the context that first used the bus
+                runloop_context = contextvars.copy_context()
+                runloop_context.run(self._reset_handler_context)
+                self._runloop_task = loop.create_task(self._run_loop(), name=f'{self}._run_loop', context=runloop_context)
                 self._is_running = True
             except RuntimeError:
                 # No event loop - will start when one becomes available
                 pass
+
+    @staticmethod
+    def _reset_handler_context() -> None:
+        holds_global_lock.set(False)
+        inside_handler_context.set(False)
+        _current_event_context.set(None)
+        _current_handler_id_context.set(None)
 
     async def stop(self, timeout: float | None = None, clear: bool = False) -> None:
         """Stop the event bus, optionally waiting for events to complete
